@@ -14,6 +14,7 @@ inductive Ev where
   | sink (id : Nat)            -- some sink was invoked with the result of row id
   | stopCalled                 -- a Stop call started
   | stopReturned               -- a Stop call returned
+  | panicked (thread : String) -- a panic escaped from a call of the public API
   | stuck (thread : String)    -- at the end of the run this call (Emit, EmitSync, AddSink, Stop, a sink) had not
                                -- returned and cannot proceed
   deriving DecidableEq, Repr
@@ -29,6 +30,11 @@ def barrier : List Ev → Bool
 /-- no call is left waiting forever (a sink calling back into the instance included) -/
 def noDeadlock (evs : List Ev) : Bool := evs.all (fun e => match e with
   | .stuck _ => false
+  | _ => true)
+
+/-- no panic escapes from Emit, EmitSync, AddSink or Stop (sink and row panics are contained) -/
+def noPanic (evs : List Ev) : Bool := evs.all (fun e => match e with
+  | .panicked _ => false
   | _ => true)
 
 /-- rows handed to Emit after a Stop call returned never reach a sink -/
@@ -52,7 +58,7 @@ def allDelivered (hasSinks : Bool) (evs : List Ev) : Bool :=
       | _ => true)
 
 def clauses (hasSinks : Bool) (evs : List Ev) : List (String × Bool) :=
-  [("stop-barrier", barrier evs), ("deadlock", noDeadlock evs), ("emit-after-stop", emitAfterStopNoop evs),
+  [("stop-barrier", barrier evs), ("deadlock", noDeadlock evs), ("panic", noPanic evs), ("emit-after-stop", emitAfterStopNoop evs),
    ("all-delivered", allDelivered hasSinks evs)]
 
 def holds (hasSinks : Bool) (evs : List Ev) : Bool := (clauses hasSinks evs).all (·.2)
